@@ -164,7 +164,7 @@ def run_standins(prop: str, fns, tier: str, seed: int) -> dict:
     return out
 
 
-def _read_c_like_literal(text: str):
+def _read_c_like_literal(text: str, lang: str = "c"):
     """reader of a double-quoted C / Go interpreted string literal restricted to the escapes \\\\ \\" \\n \\r \\t \\'
     (returns the denoted string, or None if the text is not ONE well-formed literal)"""
     if len(text) < 2 or text[0] != '"' or text[-1] != '"':
@@ -178,8 +178,8 @@ def _read_c_like_literal(text: str):
             if i + 1 >= len(body):
                 return None
             m = {"\\": "\\", '"': '"', "n": "\n", "r": "\r", "t": "\t", "'": "'"}.get(body[i + 1])
-            if m is None:
-                return None
+            if m is None or (lang == "go" and body[i + 1] == "'"):
+                return None                  # Go: \' is an escape of rune literals only - "unknown escape sequence" in a string
             out.append(m)
             i += 2
         else:
@@ -214,7 +214,7 @@ def string_literals(prop: str, tier: str, seed: int) -> dict:
                         except Exception:
                             got = None
                     else:
-                        got = _read_c_like_literal(text)
+                        got = _read_c_like_literal(text, lang)
                     if got != v:
                         fails.append({"input": v, "what": "%s literal %r denotes %r" % (lang, text, got)})
                 except Exception as e:
